@@ -171,6 +171,14 @@ def do_link(src, trg):
         return True
     except FileExistsError:
         pass
+    except FileNotFoundError:
+        # the target's directory doesn't exist yet; create it the same way
+        # copyfile(mkdirs=True) would, then link.
+        basefp = os.path.dirname(trg.location)
+        if os.path.exists(basefp) or not ensure_dirs(basefp, mode=0o750, minimal=True):
+            raise
+        os.link(src.location, trg.location)
+        return True
     except OSError as e:
         if e.errno == errno.EXDEV:
             # hardlink is impossible, force copyfile
